@@ -291,6 +291,8 @@ fn dispatch_c12(cmd: &str, args: &[String], tier: &String, seed: u64, out: &Stri
             props::c12::run(&tier, seed, &out);
             0
         }
+        "c12-pair" => props::c12::replay_pair(&arg(&args, "--stm").unwrap(), &arg(&args, "--first").unwrap(), &arg(&args, "--second").unwrap(), arg(&args, "--own-time").unwrap().parse().unwrap(), arg(&args, "--own-inc").unwrap().parse().unwrap()),
+        "c12-spend" => props::c12::replay_spend(&arg(&args, "--fen").unwrap(), arg(&args, "--time").unwrap().parse().unwrap(), arg(&args, "--inc").unwrap().parse().unwrap()),
         "c12-one" => props::c12::replay(&arg(&args, "--stm").unwrap(), &arg(&args, "--line").unwrap(), arg(&args, "--own-time").unwrap().parse().unwrap(), arg(&args, "--own-inc").unwrap().parse().unwrap()),
         _ => return None,
     })
